@@ -153,7 +153,7 @@ def s3(ck, an, concrete):
     ck.check(len(ex) == 1 and isinstance(ex[0], ast.Assign) and ast.unparse(ex[0].value) == "self._get_expiry_date(year, month)", "ARGFLOW", "S3.expiry-from-rule", fi.f.short, fi.f.loc, "expiry = _get_expiry_date(year, month)",
              "expiry is not _get_expiry_date(year, month)", construct="self.expiry = self._get_expiry_date(year, month)")
     fs = an.fa("Future.symbol")
-    ck.check([ast.unparse(r.value) for r in returns_in(fs)] == ["self._symbol"], "ARGFLOW", "S3.symbol-property", fs.f.short, fs.f.loc, "Future.symbol returns the symbol built at construction", "Future.symbol does not return self._symbol", construct="return self._symbol")
+    ck.check(ret_canons(fs) == ["self._symbol"], "ARGFLOW", "S3.symbol-property", fs.f.short, fs.f.loc, "Future.symbol returns the symbol built at construction", "Future.symbol does not return self._symbol", construct="return self._symbol")
     # specification constants of the expiry rules, compared as value ids (rename-proof), arithmetic NOT evaluated
     from sa.forward import Forward
 
